@@ -827,6 +827,32 @@ macro_rules! c13_complex_batch {
         }
     };
 }
+zv_harness! {
+    name: c13_complex_batch_empty_decode,
+    prop: "C13",
+    tier: quick,
+    unwind: 4,
+    stubs: [alloc::fmt::format => crate::common::stubs::fmt_format],
+    targets: "io::complex_types::ComplexTypeSerializer::deserialize_batch for the encoding of the empty batch (the 4-byte count word 0, which is what serialize_batch(&[]) produces under every configuration: see c13_complex_batch_k0_*), safe / default / fast configurations",
+    bounds: "the one input [0, 0, 0, 0]; three configurations",
+    oracle: "decodes to the empty vector",
+    body: {
+        let empty = [0u8; 4];
+        let safe = ComplexTypeSerializer::new(ComplexTypeConfig::safe());
+        let a = must(safe.deserialize_batch::<Option<u16>>(&empty[..]), "safe: empty batch refused");
+        assert!(a.len() == 0);
+        let dflt = ComplexTypeSerializer::new(ComplexTypeConfig::default());
+        let b = must(dflt.deserialize_batch::<(u8, u32)>(&empty[..]), "default: empty batch refused");
+        assert!(b.len() == 0);
+        let fast = ComplexTypeSerializer::new(ComplexTypeConfig::fast());
+        let c = must(fast.deserialize_batch::<Option<u16>>(&empty[..]), "fast: empty batch refused");
+        assert!(c.len() == 0);
+        zcover!(true, "all three decoded");
+        forget(a);
+        forget(b);
+        forget(c);
+    }
+}
 c13_complex_batch!(c13_complex_batch_k0_meta, quick, 4, 0, true);
 c13_complex_batch!(c13_complex_batch_k1_meta, thorough, 24, 1, true);
 c13_complex_batch!(c13_complex_batch_k0_fast, quick, 24, 0, false);
